@@ -330,6 +330,7 @@ def run(ctx):
     r2_to_r6_reapers(ctx)
     r8_every_tick_runs_a_pass(ctx)
     from . import C13, C09
+    C13.r9_lookup_makes_progress(ctx)    # the look-up cannot spin on an entry it does not remove (it holds the pool lock while it looks)
     C09.r12_close_is_never_cancelled(ctx)   # neither close() nor the registration of a new session in the pool is raced against a timer: a session that is not registered is never reaped
     C09.r1_locks(ctx)        # the pool never waits on a lock it holds itself (a request that meets a dead entry still returns)
     C13.r7_pool_config_is_what_was_given(ctx)   # the reaper works with the configured idle minimum / timeout / interval
